@@ -12,7 +12,7 @@ from pyvc.stubs import np as snp
 from pyvc.stubs import pint as spint
 
 from . import arrays as A
-from . import c01
+from . import c01, c14
 from . import io_common as G
 from . import io_load as IL
 from . import native_io as NIO
@@ -38,9 +38,17 @@ def skip_equiv(case):
     c01._var_block(case)
 
 
+@unit("C13", "PartReader.read_header", targets=["osyris.io.part:PartReader.read_header"], cases=c14._DESCS, replay=NIO.replay_subset)
+def part_skip(case):
+    """skipping a particle variable of any type advances exactly over its record"""
+    c14.part_header(case)
+
+
 _SEL = [
     {"label": "mesh_vars_list", "select": {"mesh": ["density", "level", "position_x"]}, "expect": ["density", "level", "position_x"]},
     {"label": "mesh_one_hydro_var", "select": {"mesh": ["pressure"]}, "expect": ["pressure"]},
+    {"label": "name_is_prefix_of_another", "select": {"mesh": ["scalar_1"]}, "expect": ["scalar_1"],
+     "hydro_vars": ("density", "scalar_1", "scalar_10")},
     {"label": "groups_list", "select": ["mesh"], "expect": "all"},
     {"label": "part_off", "select": {"part": False}, "expect": "all"},
     {"label": "mesh_off", "select": {"mesh": False}, "expect": None},
@@ -54,8 +62,11 @@ _SEL = [
              for lay in (("1d,1cpu,2lev", "1d,2cpu,1lev,ghosts") if os.environ.get("PYVC_TIER") != "thorough" else list(c01.LAYOUTS))],
       replay=NIO.replay_subset, max_paths=256)
 def subset_load(case):
-    lay = IL.Layout(label=case["layout"], **c01.LAYOUTS[case["layout"]]).setup()
     sel = case["sel"]
+    kw = dict(c01.LAYOUTS[case["layout"]])
+    if "hydro_vars" in sel:
+        kw["hydro_vars"] = sel["hydro_vars"]
+    lay = IL.Layout(label=case["layout"], **kw).setup()
     try:
         ld, meta, units, lib, out = IL.run_load(lay, select=sel["select"])
     finally:
